@@ -1,5 +1,6 @@
 import IbicusModel.Props.C04
 import IbicusModel.Props.C04Gen
+import IbicusModel.Props.Capstone
 -- property theorems (per window, then whole series)
 #print axioms Props.C04.sort_map_mono
 #print axioms Props.C04.rank_map_mono
@@ -81,3 +82,18 @@ import IbicusModel.Props.C04Gen
 #print axioms Lemmas.GenDebiasers.linearScalingS_multiplicative
 #print axioms Lemmas.GenDebiasers.deltaChangeS_additive
 #print axioms Lemmas.GenDebiasers.deltaChangeS_multiplicative
+-- capstone: C04 on the composition of the regenerated pieces (Props/Capstone.lean; the `_eq_model` theorems they rest on are listed in Audit/C02.lean)
+#print axioms Props.Capstone.regenApplyLocation_LS_affine
+#print axioms Props.Capstone.regenApplyLocation_LS_mult_scale
+#print axioms Props.Capstone.regenApplyLocation_DC_affine
+#print axioms Props.Capstone.regenApplyLocation_DC_mult_scale
+#print axioms Props.Capstone.regenApplyLocation_ECDFM_affine
+#print axioms Props.Capstone.regenApplyLocation_QM_affine_param
+#print axioms Props.Capstone.regenApplyLocation_QM_affine_nonparam
+#print axioms Props.Capstone.regenApplyLocation_SDM_affine
+#print axioms Props.Capstone.regenApplyLocation_CDFt_affine
+#print axioms Props.Capstone.regenApplyLocation_QDM_affine
+#print axioms Props.Capstone.regenApplyLocation_CDFt_years_affine
+#print axioms Props.Capstone.regenApplyLocation_QDM_years_affine
+#print axioms Props.Capstone.regenApplyLocation_ISIMIP_affine
+#print axioms Props.Capstone.regenApplyLocation_ISIMIP_months_affine
